@@ -211,8 +211,8 @@ def generate_bo(wd, tier):
             if tier == "thorough":
                 pads = BO_PADS_ALL
             else:
-                # every behaviour without padding, with 12 and with 30; the position rotates
-                pads = [(0, "before"), (12, BO_POS[i % 3]), (30, BO_POS[(i + 1) % 3])]
+                # every behaviour with 12 and with 30 (the position rotates), every third one also without padding
+                pads = [(12, BO_POS[i % 3]), (30, BO_POS[(i + 1) % 3])] + ([(0, "before")] if i % 3 == 0 else [])
             for pad, pos in pads:
                 c["pad"], c["padpos"] = pad, pos
                 f.write(json.dumps(c) + "\n")
